@@ -273,6 +273,30 @@ def coq_muts(ts):
     return clist(zip(pos, ts.mutations_node), lambda m: cpair(cZ(int(m[0])), cnat(int(m[1]))))
 
 
+def coq_table_defs(k, ts):
+    """top-level Definitions es<k>, ins<k>, rem<k>, smp<k>, muts<k>, nind<k>, L<k> for one input
+    (closed list constants elaborate in linear time; one big let-bound tuple does not)"""
+    ins, rem = coq_index(ts)
+    return ("Definition es%d := %s.\nDefinition ins%d := %s.\nDefinition rem%d := %s.\n"
+            "Definition smp%d := %s.\nDefinition muts%d := %s.\nDefinition nind%d := %s.\nDefinition L%d := %s.\n"
+            % (k, coq_edges(ts) if ts.num_edges else "@nil edge", k, ins if ts.num_edges else "@nil nat",
+               k, rem if ts.num_edges else "@nil nat", k, coq_bools(is_sample_list(ts)),
+               k, coq_muts(ts) if ts.num_mutations else "@nil (Z * nat)",
+               k, clist(ts.nodes_individual, lambda i: cZ(int(i))), k, cZ(int(ts.sequence_length))))
+
+
+def coq_run_cases(ctx, texts, requires, tag, chunk=300):
+    """texts: list of (definitions, term); one `Eval vm_compute` per case; returns parsed values"""
+    out = []
+    for i in range(0, len(texts), chunk):
+        part = texts[i:i + chunk]
+        body = "".join("%sEval vm_compute in %s.\n" % (d, t) for d, t in part)
+        res = ctx.coq_eval(body, requires=requires, tag=tag)
+        assert len(res) == len(part), (len(res), len(part))
+        out.extend(res)
+    return out
+
+
 def integer_coords(ts):
     return (float(ts.sequence_length).is_integer()
             and all(float(x).is_integer() for x in ts.edges_left)
@@ -381,7 +405,7 @@ def ref_blocks_spec(ts, unphased):
             blocks[pair] = (len(inside), r - l)
             for m in inside:
                 mut[m] = pair
-        out[i] = {"blocks": blocks, "mut": mut, "lone": lone}
+        out[i] = {"blocks": blocks, "mut": mut, "lone": lone, "stray": any(v is None for v in mut.values())}
     return out
 
 
